@@ -101,6 +101,13 @@ class View:
         return View(self.cell, self.start + lo, ln, kind or self.kind,
                     self.writable if writable is None else writable)
 
+    def comp_(self, it, n, fr):
+        """a comprehension over the bytes of this value: only the structured-text mode gives it a meaning of its own"""
+        from . import models
+        if models.text_mode(it):
+            return models.TEXT_HOOK.view_comp(it, self, n, fr)
+        return NotImplemented
+
     def __repr__(self):
         return f'View(cell={self.cell}, start={self.start}, len={self.length}, {self.kind})'
 
